@@ -553,6 +553,7 @@ func startVM(t testing.TB, cc *caseCtx, cfg vmCfg, genesis *blk) (*recChain, *xv
 type status int
 
 const (
+	stallGrace       = 3 * time.Second
 	deadlockGrace    = 5 * time.Second
 	deadlockWatchdog = 120 * time.Second
 )
@@ -858,13 +859,35 @@ func (e *engine) accept(n *node, sync bool) {
 	}
 	e.op('a', "accept %s sync=%v lag=%d", n.b, sync, e.lag)
 	var err error
-	e.r.Guard("Accept", e.cc.witness(), func() {
-		if sync {
-			err = n.dec.SyncAccept(e.ctx)
-		} else {
-			err = n.dec.Accept(e.ctx)
-		}
+	done := kit.Go(func() {
+		e.r.Guard("Accept", e.cc.witness(), func() {
+			if sync {
+				err = n.dec.SyncAccept(e.ctx)
+			} else {
+				err = n.dec.Accept(e.ctx)
+			}
+		})
 	})
+	select {
+	case <-done:
+	case <-time.After(stallGrace):
+		// Accept can only wait for the accept queue, and the queue can only be
+		// full if the wrapper queued more than the engine accepted (the lag is
+		// bounded below the queue size). Stop gating so the case can finish;
+		// whatever was queued in excess is judged by the recorder.
+		e.stat["gate_forced_open"]++
+		e.chain.gate.setOpen(true)
+		e.cfg.MaxLag, e.lag = 0, 0
+		res, stacks := kit.AwaitOrDeadlock(done, []string{"hypersdk/snow.", "hypersdk/snow/"}, deadlockGrace, deadlockWatchdog)
+		if res == kit.Deadlock {
+			e.fail("accept-deadlock", "Accept(%s) never returned; every goroutine of the wrapper is parked:\n%s", n.b, stacks)
+			return
+		} else if res == kit.Unknown {
+			e.dead = true
+			e.r.Inconclusive("case %d: Accept did not return within the watchdog and no deadlock witness was found", e.cc.wit.Case)
+			return
+		}
+	}
 	if err != nil {
 		e.fail("engine-call-error", "Accept(%s): %v", n.b, err)
 		return
@@ -972,10 +995,9 @@ func (e *engine) shutdown() bool {
 // decisions at quiescence.
 func (e *engine) checkNotifications(startupRepeat *node) {
 	c := e.chain
+	var bad [][2]string
 	c.mu.Lock()
-	defer c.mu.Unlock()
 	seen := map[ids.ID]struct{}{}
-	var bad []([2]string)
 	for _, n := range e.nodes {
 		id := n.b.id
 		seen[id] = struct{}{}
@@ -993,10 +1015,13 @@ func (e *engine) checkNotifications(startupRepeat *node) {
 			bad = append(bad, [2]string{"notify-rejected-mismatch", fmt.Sprintf("%s: %d rejected notifications, engine rejected it %d time(s)", n.b, x, n.wantRej)})
 		}
 	}
-	for name, m := range map[string]map[ids.ID]int{"verified": c.nVerified, "accepted": c.nAccepted, "rejected": c.nRejected} {
-		for id, k := range m {
+	for _, m := range []struct {
+		name string
+		m    map[ids.ID]int
+	}{{"verified", c.nVerified}, {"accepted", c.nAccepted}, {"rejected", c.nRejected}} {
+		for id, k := range m.m {
 			if _, ok := seen[id]; !ok {
-				bad = append(bad, [2]string{"notify-" + name + "-mismatch", fmt.Sprintf("%d %s notification(s) for block %s the engine never decided", k, name, short(id))})
+				bad = append(bad, [2]string{"notify-" + m.name + "-mismatch", fmt.Sprintf("%d %s notification(s) for block %s the engine never decided", k, m.name, short(id))})
 			}
 		}
 	}
@@ -1004,5 +1029,4 @@ func (e *engine) checkNotifications(startupRepeat *node) {
 	for _, b := range bad {
 		e.cc.violation(b[0], "%s", b[1])
 	}
-	c.mu.Lock()
 }
